@@ -51,6 +51,14 @@ def amp_patterns(nmodes, tier):
         p = [0.0] * nmodes
         p[i], p[j] = 0.2, -0.1
         pats.append(p)
+    # amplitudes on the bounds of the valid range
+    for a in (1.0, -1.0):
+        p = [0.0] * nmodes
+        p[0] = a
+        pats.append(p)
+        p = [0.0] * nmodes
+        p[-1] = a
+        pats.append(p)
     return pats
 
 
@@ -97,7 +105,7 @@ def centre_classes(g, R, ph):
     ]
     if any(per):
         out.append(("one-period-outside", [lo[a] + (mid[a] + 0.31 + ph + (n[a] if per[a] else 0)) * dx[a] for a in range(dim)]))
-        out.append(("one-period-below", [lo[a] + (0.3 + ph - (n[a] if per[a] else 0)) * dx[a] for a in range(dim)]))
+        out.append(("three-periods-below", [lo[a] + (0.3 + ph - (3 * n[a] if per[a] else 0)) * dx[a] for a in range(dim)]))
     return out
 
 
